@@ -215,6 +215,9 @@ def check_rest(ctx, P, tx, rx, ms):
                 and not u["fn"].j.get("derived")})
     allowed = {"dp::master::DpMaster::<'a>::new", "dp::master::DpMaster::<'a>::increment_cycle_state", TX, RX}
     allowed |= {P.fn(CR, TX).name, P.fn(CR, RX).name}
+    from analysis.callgraph import CallGraph, reached_only_from
+    cg_ = CallGraph(P, CR)
+    allowed |= {w_ for w_ in w if reached_only_from(P, CR, cg_, w_, allowed)}
     ctx.ob("f.who", "writers-of-cycle-state", bool(w) and set(w) <= allowed,
            "the DP cycle position (DpMasterState.cycle_state) is written outside the slot iteration (%s): peripherals can be visited twice or skipped "
            "in one pass" % sorted(set(w) - allowed), "")
@@ -251,12 +254,14 @@ EVENT_EDGES = {
 
 def check_lifecycle(ctx, P):
     n = 0
-    for f in P.crate_fns(CR):
-        if f.module != "dp::peripheral" or f.kind != "assoc" or f.j.get("derived"):
-            continue
+    # decision tables split off into private single-call-site helpers are read in their caller's context
+    from analysis.inline import expanded_fns
+    fns = expanded_fns(P, [f for f in P.crate_fns(CR) if f.module == "dp::peripheral" and f.kind == "assoc" and not f.j.get("derived")])
+    uses = {var: variant_uses(P, CR, "dp::peripheral::PeripheralEvent", var, fns) for var in EVENT_EDGES}
+    for f in fns:
         evs = []
         for var in EVENT_EDGES:
-            for e in variant_uses(P, CR, "dp::peripheral::PeripheralEvent", var):
+            for e in uses[var]:
                 if e["fn"] is f:
                     evs.append((var, e))
         if not evs:
